@@ -4,9 +4,27 @@ go into the evidence files. Counts in the evidence are always measured."""
 REAL_LIB = "topic.Tree, session.IDCounter, session.PacketStore/MemorySession (unmodified /repo code); Go scheduler, sync.Mutex/RWMutex (simrt-patched only in how they choose among equals)"
 STUB_LIB = "none: the callers are simulator actor goroutines"
 
+REAL_CONN = "packet.Stream/Encoder/Decoder, transport.BaseConn/NetConn, mercury.Writer with its flush timer (virtual clock), bufio (unmodified /repo and module code)"
+STUB_CONN = "the byte transport below net.Conn (sim/simnet: in-memory link with simulator-decided delivery, fragmentation, truncation, cut, per-call failures)"
+
 CHECKS = {
+    "C03": {
+        "level": "exploration",
+        "level_text": "Seeded search over packet sequences x fragmentations x flush-timer timings of the real Stream/BaseConn/NetConn pair on a simulated byte link, with every split point and truncation offset of short streams enumerated; oracles on the wire bytes and on the received packet list. Sampling plus an exhaustive sub-space, not proof.",
+        "level_note": "Trusts the packet codec's Encode as the definition of a packet's bytes, the simrt overlay and synctest's virtual clock; the WebSocket carrier is not yet part of this check.",
+        "technique": "deterministic simulation: simulated byte transport with seeded fragmentation/truncation + virtual flush timer + wire/packet-list oracles; split points enumerated for short streams",
+        "quick": {"runs": 16000, "budget_s": 45, "minimise_s": 30},
+        "thorough": {"runs": 1200000, "budget_s": 1000, "minimise_s": 120},
+        "rule": "seed -> packet sequence (all 14 types, sizes biased to 0/1/127/128/4096+-8/16383/16384/read limit +-), async/sync flag per send, flush delay, chunking policy, read-size bound; the scheduler interleaves sends, deliveries of 1..k bytes, flush-timer firings, close. One seed class in eight builds a stream <=64 bytes and ENUMERATES every split point and every truncation offset (thorough: every pair of split points). Oracles: wire bytes = concatenation of encodings; received list = sent list compared after the whole stream was consumed; read-limit refusal before buffering; truncated stream => error, never a packet; Receive never hangs. Non-trivial = at least one packet sent under a non-trivial fragmentation or >=2 packets; distinct = distinct event-log fingerprints",
+        "probes": ["enumerated_splits", "fault_stream_cut", "flush_timer_advances", "oversize_refused", "ended_inside_packet", "packets_over_bufio_size", "async_sends"],
+        "real": REAL_CONN, "stub": STUB_CONN,
+        "assumptions": ["the packet codec itself (Encode) defines a packet's encoding (C01 is out of scope of simulation)"],
+    },
     "C05": {
         "level": "exploration",
+        "level_text": "Seeded search over operation histories and over interleavings of 2-16 caller goroutines pre-empted at every lock acquisition by the seeded runtime; every query compared with a map model after every mutation, concurrent histories checked for linearizability with porcupine, result slices checked for later modification, same binary under the race detector. Sampling, not proof.",
+        "level_note": "Trusts porcupine v1.3.0, the Go race detector, the simrt overlay of go1.26.8 (determinism self-tested), the 4.7 reference matcher in sim/model.",
+        "technique": "deterministic simulation: seeded lock-level interleavings + reference map model + porcupine linearizability + race detector",
         "race": True,
         "quick": {"runs": 24000, "race_runs": 3000, "budget_s": 40, "minimise_s": 30},
         "thorough": {"runs": 1600000, "race_runs": 120000, "budget_s": 900, "minimise_s": 120},
@@ -18,6 +36,9 @@ CHECKS = {
     },
     "C18": {
         "level": "exploration",
+        "level_text": "Seeded interleavings of 2-16 concurrent id allocators around the 16-bit wrap, sequential and concurrent packet-store histories against a two-map model (porcupine), and a sweep over counter start states (all 65536 in the thorough tier).",
+        "level_note": "Trusts porcupine v1.3.0, the Go race detector, the simrt overlay.",
+        "technique": "deterministic simulation: seeded lock-level interleavings + reference model + porcupine; exhaustive counter-state sweep",
         "race": True,
         "quick": {"runs": 6000, "race_runs": 1200, "budget_s": 40, "minimise_s": 30},
         "thorough": {"runs": 4400, "race_runs": 60000, "budget_s": 900, "minimise_s": 120},
